@@ -8,6 +8,7 @@ import JmesVerif.Spec.Sem
 import JmesVerif.Model.Errors
 import JmesVerif.Model.Registry
 import JmesVerif.Model.SerdeWire
+import JmesVerif.Model.Convert
 /-!
 Line-protocol driver for the model side of the correspondence streams (DESIGN §4.2).
 `jmdriver <stream>` reads one case per line on stdin and writes one result line per case.
@@ -218,6 +219,27 @@ def streamJson (fields : List String) : String :=
       s!"ok {Enc.valStr v}\ttext={Enc.hexStr printed}\treparse={re}"
   | _ => "BADCASE"
 
+/-- tojm: `<kind>\t<data>` → `gen=<generic path result>\tspec=<specialised path result>` -/
+def streamTojm (fields : List String) : String :=
+  let input : Option Input :=
+    match fields with
+    | [kind, data] =>
+      if kind == "value" || kind == "valueref" then (Enc.parseVal data).map fun v => .value v.toJValue
+      else if kind ∈ ["rcvar", "rcvarref", "variable", "variableref"] then (Enc.parseVal data).map .lib
+      else if kind == "string" || kind == "str" then some (.string (Enc.unhexStr data))
+      else if kind ∈ ["i8", "i16", "i32", "i64", "u8", "u16", "u32", "u64", "isize", "usize"] then data.toInt?.map .int
+      else if kind == "f32" then some (.f32 (SerdeWire.f32BitsToF64 (Enc.hexToNat data)))
+      else if kind == "f64" then some (.f64 (F64.ofBits (Enc.hexToNat data)))
+      else if kind == "bool" then some (.bool (data == "t"))
+      else if kind == "unit" then some .unit
+      else none
+    | _ => none
+  match input with
+  | none => "BADCASE"
+  | some i =>
+    let sh : Option Val → String := fun o => match o with | some v => "ok " ++ Enc.valStr v | none => "ERR"
+    s!"gen={sh (convGeneric i)}\tspec={sh (convSpecialized i)}"
+
 partial def loop (h : IO.FS.Stream) (out : IO.FS.Stream) (f : List String → String) : IO Unit := do
   let line ← h.getLine
   if line.isEmpty then return ()
@@ -236,5 +258,6 @@ def main (args : List String) : IO UInt32 := do
   | ["registry"] => loop stdin stdout streamRegistry; return 0
   | ["json"] => loop stdin stdout streamJson; return 0
   | ["serde"] => loop stdin stdout SerdeWire.stream; return 0
+  | ["tojm"] => loop stdin stdout streamTojm; return 0
   | ["history"] => loop stdin stdout streamHistory; return 0
   | _ => IO.eprintln "usage: jmdriver <stream>"; return 2
